@@ -628,7 +628,48 @@ pub fn segment_msgs(world: &World, v: ProtocolVersion, rng: &mut SimRng) -> Vec<
 		body.extend_from_slice(&[2, 1, 0, 0]);
 		body.extend_from_slice(&0u64.to_be_bytes());
 		body.extend_from_slice(ah.output_root.as_bytes());
-		out.push(WireMsg { ty: Type::OutputBitmapSegment as u8, name: "bitmap2seg".into(), body, attachment: None, headers: None });
+		out.push(WireMsg { ty: Type::OutputBitmapSegment as u8, name: "bitmapseg".into(), body, attachment: None, headers: None });
+	}
+	out
+}
+
+/// Bitmap segment frames for the hostile reader only (most of them are not valid messages).
+pub fn bitmap_block_msgs(world: &World) -> Vec<WireMsg> {
+	let mut out = vec![];
+	let chain = world.builder.chain();
+	let seg = match chain.segmenter() {
+		Ok(s) => s,
+		Err(_) => return out,
+	};
+	let ah = seg.header().clone();
+	let bh = ah.hash();
+	// the block encodings of a bitmap segment enumerated: chunk counts 0 ... 255, the three modes (raw
+	// bits, positions set, positions clear) and an unknown one, position lists around the block's bit
+	// count - each a complete, length-consistent frame
+	for n_chunks in [0u8, 1, 2, 64, 65, 255] {
+		for mode in [0u8, 1, 2, 3] {
+			let bits = n_chunks as u32 * 1024;
+			let lists: Vec<Vec<u16>> = if mode == 0 { vec![vec![]] } else { vec![vec![], vec![0], vec![1023], vec![1024.min(65535)], vec![bits.saturating_sub(1).min(65535) as u16], vec![bits.min(65535) as u16], vec![65535], vec![0, 0], vec![5, 3]] };
+			for list in lists {
+				let mut body = bh.as_bytes().to_vec();
+				body.push(if n_chunks <= 2 { 1 } else { 9 });
+				body.extend_from_slice(&0u64.to_be_bytes());
+				body.extend_from_slice(&1u16.to_be_bytes());
+				body.push(n_chunks);
+				body.push(mode);
+				if mode == 0 {
+					body.extend(std::iter::repeat(0x55u8).take(n_chunks as usize * 128));
+				} else {
+					body.extend_from_slice(&(list.len() as u16).to_be_bytes());
+					for x in &list {
+						body.extend_from_slice(&x.to_be_bytes());
+					}
+				}
+				body.extend_from_slice(&0u64.to_be_bytes());
+				body.extend_from_slice(ah.output_root.as_bytes());
+				out.push(WireMsg { ty: Type::OutputBitmapSegment as u8, name: format!("bitmapblock-c{}m{}l{:?}", n_chunks, mode, list), body, attachment: None, headers: None });
+			}
+		}
 	}
 	out
 }
@@ -1388,6 +1429,7 @@ pub fn c11_case(tier: &str, seed: u64, case: u64) -> CaseResult {
 		let v = ProtocolVersion(*vnum);
 		let mut all = corpus(&world, v, &mut rng);
 		all.extend(segment_msgs(&world, v, &mut rng));
+		all.extend(bitmap_block_msgs(&world));
 		all.push(headers_msg(&world, 2, v));
 		all.push(archive_msg(&world, 64, v, &mut rng));
 		for m in all.iter() {
@@ -1541,8 +1583,15 @@ pub fn c11_case(tier: &str, seed: u64, case: u64) -> CaseResult {
 				}
 			}
 			rng.shuffle(&mut variants);
-			let take = (budget / all.len().max(1)).max(40);
+			let n_mutated = all.iter().filter(|x| !x.name.starts_with("bitmapblock-")).count();
+			let take = (budget / n_mutated.max(1)).max(40);
 			variants.truncate(take);
+			if m.name.starts_with("bitmapblock-") {
+				// the enumerated block encodings are themselves the mutations: delivered as they are
+				variants.clear();
+				priority.clear();
+				variants.push(("enumerated-bitmap-block".into(), base.clone()));
+			}
 			res.fault_n("mutation:count-length-smallbyte", priority.len() as u64);
 			variants.extend(priority);
 			for (what, f) in variants.into_iter() {
